@@ -156,6 +156,15 @@ def main(tier):
                 ck.violation("dtype change of a PackedTensor is not refused with ValueError", rep)
             if o["to_uint8"]["cls"] != "PackedTensor" or o["to_uint8"]["value"].get("data") != c["data"]:
                 ck.violation("to(uint8) of a PackedTensor changed class or values", rep)
+    for c, o in zip(cases, r["cases"]):
+        h = o.get("history")
+        if h:
+            for key, what in (("input_unchanged", "packing modified its argument"),
+                              ("packed_kept_after_input_update", "a packed tensor changed when the tensor it was packed from was later updated in place (the payload aliases its source)"),
+                              ("repack_sees_update", "packing the same tensor object again after an in-place update does not pack its current values"),
+                              ("payload_kept_after_unpacked_update", "modifying an unpacked tensor in place changed the packed payload / a later unpack")):
+                if h.get(key) is False:
+                    ck.violation(f"{what} (bits={c['bits']}, shape={c['shape']})", {"case": c, "history": h})
     for pc, o in zip(pairs, r.get("pairs", [])):
         ck.case(("pair", pc["a"]["bits"], tuple(pc["a"]["shape"]), tuple(pc["b"]["shape"]), tuple(pc["a"]["data"]), tuple(pc["b"]["data"])), nontrivial=True)
         if "exn" in o:
